@@ -48,6 +48,8 @@ var StrPool = []string{
 	"", "a", "b", "abc", "hello world", "晓", "晓明", "😀", "é", "q\"uote", "back\\slash",
 	"line\nbreak", "tab\there", "'", "%_", "0", "1", "true", "(", "[a-z]+", "^a.c$", "a|b", "é",
 	"x y", " lead", "trail ", "ß", "İ", "​",
+	"0123456789abcdef0123456789abcdef", "a long string of exactly sixty-four bytes, padded with xs: xxxxxxxxxx",
+	"晓明晓明晓明晓明晓明晓明晓明晓明晓明晓明晓明晓明晓明晓明晓明晓明晓明晓明晓明晓明晓明晓明",
 }
 
 // TimeForm is an absolute time spelling with its parts.
@@ -101,7 +103,10 @@ func (g *Gen) Type(d int) *Ty {
 		return TMap(g.Prim(), g.Type(d-1))
 	default:
 		n := 1 + g.pick(3)
-		names := []string{"a", "b", "c", "d", "名", "x1", "w", "h"}
+		if g.p(0.05) {
+			n = 5 + g.pick(4)
+		}
+		names := []string{"a", "b", "c", "d", "名", "x1", "w", "h", "ab", "bc"}
 		g.R.Shuffle(len(names), func(i, j int) { names[i], names[j] = names[j], names[i] })
 		fs := make([]Fld, n)
 		for i := range fs {
@@ -184,6 +189,9 @@ func (g *Gen) Value(t *Ty, d int) *V {
 		if d <= 0 {
 			n = g.pick(2)
 		}
+		if g.p(0.06) && (t.El.IsPrim() || d > 0) {
+			n = g.bigSize()
+		}
 		if t.El.K == KBot {
 			n = 0
 		}
@@ -198,6 +206,9 @@ func (g *Gen) Value(t *Ty, d int) *V {
 		return out
 	case KMap:
 		n := g.pick(4)
+		if g.p(0.05) && t.Key.K == KNum {
+			n = g.bigSize()
+		}
 		if t.Key.K == KBot || t.Val.K == KBot {
 			n = 0
 		}
@@ -207,7 +218,11 @@ func (g *Gen) Value(t *Ty, d int) *V {
 			if g.p(0.5) {
 				vt = g.Permute(vt)
 			}
-			out.MapPut(g.Value(t.Key, 0), g.Value(vt, d-1))
+			k := g.Value(t.Key, 0)
+			if n > 4 && t.Key.K == KNum {
+				k = VNum(float64(i)) // many distinct keys
+			}
+			out.MapPut(k, g.Value(vt, d-1))
 		}
 		return out
 	case KObj:
@@ -227,6 +242,13 @@ func (g *Gen) Value(t *Ty, d int) *V {
 		return VJust(t.El, g.Value(t.El, d-1))
 	}
 	panic("reference: cannot generate value of " + t.Canon())
+}
+
+// bigSize draws a collection size around the thresholds at which "fast
+// paths" typically switch (8, 16, 32, 64, 128, 256, 1024).
+func (g *Gen) bigSize() int {
+	base := []int{8, 16, 32, 64, 100, 128, 256, 1024}[g.pick(8)]
+	return base - 1 + g.pick(3)
 }
 
 // StdEnv draws an environment with a fixed vocabulary of names and random
@@ -326,6 +348,13 @@ func (g *Gen) Literal(t *Ty, d int) *E {
 			return List()
 		}
 		n := 1 + g.pick(3)
+		if g.p(0.03) && t.El.IsPrim() {
+			n = g.bigSize()
+			if n > 140 {
+				n = 140
+			}
+			d = 1
+		}
 		xs := make([]*E, n)
 		for i := range xs {
 			xs[i] = g.Expr(t.El, d-1)
